@@ -487,8 +487,37 @@ func TestDequeLinearizable(t *testing.T) {
 				ops = []string{"ForcePushFront", "ForcePushBack", "ForcePushBack", "Len", "Len"}
 			}
 		}
+		// "close after free" (as in C05): the deque is full and producers
+		// are parked in WaitPush*; one thread pops, closes at once and
+		// then looks (Len, PushBack)
+		closeAfterFree := contention && rapid.IntRange(0, 3).Draw(t, "closeAfterFree") == 0
+		if closeAfterFree {
+			full := c.Opts.Capacity
+			if c.Opts.Kind == "quota" {
+				if full = c.Opts.Soft; full <= 0 {
+					full = c.Opts.Hard
+				}
+			}
+			c.Prefill = full
+			y := func() int { return rapid.IntRange(0, 2).Draw(t, "yield") }
+			next++
+			c.Prog.Threads = append(c.Prog.Threads, []vkit.Step{
+				{Op: "Len", Ctx: -1, Yield: 4},
+				{Op: rapid.SampledFrom([]string{"PopFront", "PopBack"}).Draw(t, "pop"), Ctx: -1, Yield: rapid.IntRange(0, 8).Draw(t, "settle")},
+				{Op: "Close", Ctx: -1, Yield: y()},
+				{Op: "Len", Ctx: -1, Yield: y()},
+				{Op: "PushBack", V: next, Ctx: -1, Yield: y()},
+				{Op: "Len", Ctx: -1, Yield: y()},
+			})
+			closes = 1
+			ng--
+			ops = []string{"WaitPushFront", "WaitPushBack", "WaitPushBack", "Len"}
+		}
 		for g := 0; g < ng; g++ {
 			n := rapid.IntRange(1, 7).Draw(t, "nops")
+			if closeAfterFree {
+				n = rapid.IntRange(1, 2).Draw(t, "nopsParked")
+			}
 			var th []vkit.Step
 			for i := 0; i < n; i++ {
 				s := vkit.Step{Op: rapid.SampledFrom(ops).Draw(t, "op"), Ctx: -1, Yield: rapid.IntRange(0, 4).Draw(t, "yield")}
